@@ -53,6 +53,6 @@ package traversal
 //@   requires s != nil && s.store != nil
 //@   # only verified pyramid entries reach the local store
 //@   callassert Putter.Put only-valid-chunks-are-stored: len($chs) == 1 && $chs[0] != nil && 8 <= chunkLen(ref($chs[0])) && chunkLen(ref($chs[0])) <= 262144 + 8 && bmtExact(chunkData(ref($chs[0]))) == addrBytes(chunkAddr(ref($chs[0])))
-//@   loop 1 invariant err == nil && pyramid != nil && forall k string :: visited(k) ==> entryValid(k, pyramid[k])
-//@   loop GetChunkHashes$2.1 invariant err == nil && p != nil && p.seen != nil && p.data == pyramid && forall k string :: present(pyramid, k) ==> entryValid(k, pyramid[k])
+//@   loop 1 invariant s.store != nil && err == nil && pyramid != nil && forall k string :: visited(k) ==> entryValid(k, pyramid[k])
+//@   loop GetChunkHashes$2.1 invariant s.store != nil && err == nil && p != nil && p.seen != nil && p.data == pyramid && forall k string :: present(pyramid, k) ==> entryValid(k, pyramid[k])
 //@   loop GetChunkHashes$2.1 invariant forall k string :: present(p.seen, k) ==> present(pyramid, k)
